@@ -381,6 +381,12 @@ def run(tier, replay=None):
     conversions(prog, rep)
     from . import c11
     c11.asref(prog, rep)
+    # "the same to_string()": a Locale without extensions prints its id and nothing else; "the id equals what LanguageIdentifier parses from the part
+    # before the first singleton": the core parser stops at (and leaves) a singleton, the dispatcher starts there
+    from . import emitrules, parserules
+    emitrules.check_display(prog, rep, wanted={'Locale', 'ExtensionsMap', 'LanguageIdentifier', 'UnicodeExtensionList', 'TransformExtensionList', 'PrivateExtensionList'})
+    for which in ('core', 'dispatch'):
+        parserules.check(prog, rep, which)
     rep.explanation = ('Differential structure instead of differential execution: both entry points run the same core body on an iterator obtained with the same separator set, '
                        'LanguageIdentifier with the constant false and Locale with the constant true; the flag is read once, after the subtag loop, and false only adds the leftover rejection, '
                        'so for every input the identifier parsed is the same value; with nothing left the extension parser returns empty extensions; conversions wire the id field straight through. '
